@@ -9,10 +9,10 @@ solver bodies), of `graphical_model.py` (py2gm, py2gminit: `belief_propagation` 
 theorems, at the exp-space reading `LogOf K` of the parameters (`-np.inf` is exp-space `0`), as in C10G.
 
 * `gen_setup_zerosIn` — generated `__init__` zero loop + generated `_setup`, cold call or first call: the stored parameters
-  are laid out on the model's cliques and their joint vanishes on every assignment extending a declared cell;
-  `gen_setup_zerosIn_warm` — warm start with a previous model: the same, under the hypothesis the source needs (the
-  previous parameters are tables over their own cliques inside the same domain — `combine` adds each into a containing
-  clique or drops it; adding never revives a `-inf`);
+  are laid out on the model's cliques and their joint vanishes on every assignment extending a declared cell
+  (warm start with a previous model: C10G `gen_warm_keeps_combine` — the zeros are `combine`d in first; that the further
+  `combine(previous.potentials)` keeps them needs the previous parameters to be tables over their own cliques inside the
+  same domain, and a `combine` lemma for arbitrary such tables, which is NOT proved here);
 * `gen_md_keeps_zeros` — the generated `mirror_descent` body, every loss/gradient function whose gradient is laid out on the
   model's cliques, every iteration count, every exit: the returned parameters still have the zeros (`θ − α·dL`);
   `gen_rda_rebuild_has_zeros` — the parameters RDA rebuilds, `combine(c·gbar, structural_zeros)`, have them whatever
@@ -20,8 +20,11 @@ theorems, at the exp-space reading `LogOf K` of the parameters (`-np.inf` is exp
 * **`gen_estimate_zeros_end_to_end`** (engine MD): in the object the generated `estimate` returns, every declared cell has
   exp-space potential product `0`; hence (C10 `zero_in_all_answers`) the marginal onto ANY attribute tuple containing the
   zero clique vanishes there — in-clique, out-of-clique and full-vector answers are `total · marginal / Z` of these
-  potentials (C01E / C02G) — and (C01E `gen_exact_inference_end_to_end`) every stored clique table is `0` there, while each
-  stored table still sums to the total.
+  potentials (C01E / C02G) — and (C01E `gen_exact_inference_end_to_end`) every stored clique table is `0` there; each stored
+  table still sums to the total (`C08E.gen_estimate_answers_valid`, clause 3, same object).
+
+RDA / IG: the per-step facts are here (`gen_rda_rebuild_has_zeros`, `gen_ig_update_keeps_zeros`); the end-to-end statement
+for their returned pair `(mle w, w)` needs the two-sorted run described in C08E and is open.
 -/
 namespace PGM.C10E
 open PGM PGM.JT PGM.Sem PGM.Zeros PGM.EstG PGM.EstGen PGM.C01E PGM.C13G PGM.C08E PGM.C10G PGM.E2EZeros
